@@ -12,10 +12,13 @@
    lines, lines naming the product eups, a pre-existing exact block, setup commands that share a line
    with other text, LOCAL: set-ups, the indentation of the output (white space only).
 
-   Two repairs of the pinned tree are modelled, each behind a boolean so that the pinned behaviour stays
+   Three repairs of the pinned tree are modelled, each behind a boolean so that the pinned behaviour stays
    available for the refuted-pinned examples:
      jfix  a line carrying -j does not ask for the closure below its product (D17);
-     sfix  below an optional product that is not set up, a product that is not set up is no error.
+     sfix  below an optional product that is not set up, a product that is not set up is no error;
+     cfix  when the closure below a line's product cannot be collected and the error is passed over (the line
+           is optional, or --force), the product - it is set up - stays in the exact block together with what
+           is set up below it, instead of being dropped (proposed_fixes/C17-closure-error-keeps-product).
    Executable definitions only. *)
 From Eupsv Require Import Base.Base Model.PathAlg Model.Setup.
 
@@ -169,10 +172,33 @@ Fixpoint setup_closure (sfix : bool) (w : world) (e : amap str) (skip : option n
       end
   end.
 
+(* the same with shouldRaise=False: a required product that is not set up is passed over (with a warning), the
+   walk goes on with the next entry *)
+Fixpoint setup_closure_lenient (sfix : bool) (w : world) (e : amap str) (skip : option nat) (ds : list dep)
+  : list nvo :=
+  match ds with
+  | [] => []
+  | d :: ds' =>
+      let skip1 := match skip with
+                   | Some k => if d_depth d <=? k then None else skip
+                   | None => None
+                   end in
+      match find_setup_product w e (d_name d) with
+      | None =>
+          if d_optional d then
+            setup_closure_lenient sfix w e (match skip1 with
+                                            | None => if sfix then Some (d_depth d) else None
+                                            | s => s
+                                            end) ds'
+          else setup_closure_lenient sfix w e skip1 ds'
+      | Some p => (p_name p, p_version p, d_optional d) :: setup_closure_lenient sfix w e skip1 ds'
+      end
+  end.
+
 Inductive lres := LSkip | LNotFound | LAdd (l : list nvo).
 
 (* the body of the loop over the products named by the table's own lines *)
-Definition line_closure (jfix sfix : bool) (w : world) (e : amap str) (top : str) (plist : amap str)
+Definition line_closure (jfix sfix cfix : bool) (w : world) (e : amap str) (top : str) (plist : amap str)
                         (force : bool) (rd : rawdeps) (name : str) (optional just : bool) : res lres :=
   if str_eqb name top then Ok LSkip else                 (* don't include product foo in foo.table *)
   let ver := match alookup name plist with
@@ -189,7 +215,10 @@ Definition line_closure (jfix sfix : bool) (w : world) (e : amap str) (top : str
                    end in
       match below with
       | Ok l => Ok (LAdd ((name, v, optional) :: l))
-      | Err x => if negb optional && negb force then Err x else Ok LSkip
+      | Err x =>
+          if negb optional && negb force then Err x
+          else if cfix then Ok (LAdd ((name, v, optional) :: setup_closure_lenient sfix w e None (lookup_raw rd name v)))
+          else Ok LSkip
       end
   end.
 
@@ -212,20 +241,20 @@ Fixpoint add_nvol (l : list nvo) (des opt : list key) : list key * list key :=
 
 Record acc := { a_des : list key; a_opt : list key; a_nf : list str }.
 
-Fixpoint collect (jfix sfix : bool) (w : world) (e : amap str) (top : str) (plist : amap str) (force : bool)
+Fixpoint collect (jfix sfix cfix : bool) (w : world) (e : amap str) (top : str) (plist : amap str) (force : bool)
                  (rd : rawdeps) (prods : list rline) (a : acc) : res acc :=
   match prods with
   | [] => Ok a
   | r :: prods' =>
-      match line_closure jfix sfix w e top plist force rd (rl_name r) (rl_optional r) (rl_just r) with
+      match line_closure jfix sfix cfix w e top plist force rd (rl_name r) (rl_optional r) (rl_just r) with
       | Err x => Err x
-      | Ok LSkip => collect jfix sfix w e top plist force rd prods' a
+      | Ok LSkip => collect jfix sfix cfix w e top plist force rd prods' a
       | Ok LNotFound =>
-          collect jfix sfix w e top plist force rd prods'
+          collect jfix sfix cfix w e top plist force rd prods'
                   {| a_des := a_des a; a_opt := a_opt a; a_nf := rl_name r :: a_nf a |}
       | Ok (LAdd l) =>
           let '(des, opt) := add_nvol l (a_des a) (a_opt a) in
-          collect jfix sfix w e top plist force rd prods' {| a_des := des; a_opt := opt; a_nf := a_nf a |}
+          collect jfix sfix cfix w e top plist force rd prods' {| a_des := des; a_opt := opt; a_nf := a_nf a |}
       end
   end.
 
@@ -279,17 +308,17 @@ Fixpoint emit (pins : list oline) (bs : list (bool * list bline)) : list oline :
       else OIfExact :: pins ++ OElse :: body ++ OClose :: emit pins rest
   end.
 
-Definition expand_gen (jfix sfix : bool) (w : world) (e : amap str) (top : str) (plist : amap str)
+Definition expand_gen (jfix sfix cfix : bool) (w : world) (e : amap str) (top : str) (plist : amap str)
                       (force : bool) (rd : rawdeps) (ls : list tline) : res (list oline) :=
   let bl := map (rewrite_line w e plist) ls in
-  match collect jfix sfix w e top plist force rd (setup_rlines bl) {| a_des := []; a_opt := []; a_nf := [] |} with
+  match collect jfix sfix cfix w e top plist force rd (setup_rlines bl) {| a_des := []; a_opt := []; a_nf := [] |} with
   | Err x => Err x
   | Ok a => Ok (emit (pin_lines a) (blocks false [] bl))
   end.
 
 (* the code as repaired, and the pinned tree *)
-Definition expand := expand_gen true true.
-Definition expand_pinned := expand_gen false false.
+Definition expand := expand_gen true true true.
+Definition expand_pinned := expand_gen false false false.
 
 (* ---------- text *)
 
